@@ -204,6 +204,10 @@ class Session:
         self.logical["solves"] += 1
         self.logical["outer"] += seams.n_argpartition
         self.logical["epochs"] += seams.n_epochs
+        if seams.n_linesearch:
+            self.probe("line_searches", seams.n_linesearch)
+        if seams.ls_exhausted:
+            self.probe("line_search_ended_on_last_trial_step", seams.ls_exhausted)
         if record:
             self._log_result(res)
         return res
